@@ -451,8 +451,11 @@ struct Run
     }
     if (g_orig_cwd >= 0) (void)::fchdir(g_orig_cwd); else (void)::chdir("/");
     if (!dir.empty()) remove_tree(dir);
+    dir.clear();
     ::rmdir(g_root.c_str()); // succeeds only when empty; recreated by the next case
   }
+
+  ~Run() { teardown(); }
 
   // ---- the sink ----
   quill::RotatingFileSinkConfig make_qcfg() const
@@ -1005,8 +1008,8 @@ struct Run
     for (auto const& mf : loose) if (match(mf, "earlier-run (may be clobbered)", false) < 0) return false;
     for (auto const& f : df)
       if (!f.matched)
-        return bad("file " + f.name + " " + ids_str(f.ids) + " should not exist: it is not among the " +
-                   std::to_string(known.size()) + " rotated files the sink keeps (max_backup_files=" +
+        return bad("file " + f.name + " " + ids_str(f.ids) + " should not exist: it had to be deleted by the backup limit or cleaned at start-up (the sink keeps " +
+                   std::to_string(known.size()) + " rotated files, max_backup_files=" +
                    (cfg.unlimited ? std::string{"unlimited"} : std::to_string(cfg.max_backup)) + ")");
 
     // 5. names: suffix == strftime(open instant) per naming scheme
@@ -1348,8 +1351,12 @@ void harness_init(Params const& p)
   g_prop = (prop == "C15" || prop == "c15" || prop == "15") ? 15 : 14;
   g_excl_f13 = excluded(p, kClassF13);
   g_excl_f8 = excluded(p, kClassF8);
-  g_excl_rm = excluded(p, kClassRm);
-  g_excl_sib = excluded(p, kClassSib);
+  // domain restriction (not a known finding): files named <stem>.<x><ext> belong to the sink's family by the code's
+  // documented convention; "unrelated" means a different extension or a different stem prefix, as in the repo's test
+  Params dom;
+  dom["exclude"] = param_str(p, "domain_exclude");
+  g_excl_rm = excluded(p, kClassRm) || excluded(dom, kClassRm);
+  g_excl_sib = excluded(p, kClassSib) || excluded(dom, kClassSib);
   g_excl_noext = excluded(p, kClassNoExt);
   struct stat st{};
   std::string root = "/dev/shm";
@@ -1373,7 +1380,16 @@ void harness_init(Params const& p)
   if (g_zones.empty() || g_zones[0] != "UTC") g_zones.insert(g_zones.begin(), "UTC");
 }
 
+static void run_case_impl(Choices& c, Report& r);
+
 void run_case(Choices& c, Report& r)
+{
+  try { run_case_impl(c, r); }
+  catch (std::exception const& e) { r.fail(std::string{"unexpected exception escaped the case: "} + e.what()); }
+  catch (...) { r.fail("unexpected non-standard exception escaped the case"); }
+}
+
+static void run_case_impl(Choices& c, Report& r)
 {
   Cfg cfg;
   gen_config(c, cfg, r);
